@@ -123,6 +123,34 @@ def precedence_family(max_leaves=4):
     return out
 
 
+def paren_edge_family():
+    """Operands whose printed text begins with "(" and ends with ")" without being parenthesised as a whole -
+    (a + b) * c + d * (e + f), (int32_t)(..) + TACO_MAX(..) - placed where the C printer must add parentheses
+    (factor of a product, right operand of a subtraction, operand of &&).  A printer that decides from the text
+    instead of the tree gets exactly these wrong."""
+    a0, a1, a2 = (ir.ArrayIndex(A, ir.IntegerLiteral(k)) for k in range(3))
+    v0, v1, v2 = (ir.ArrayIndex(V, ir.IntegerLiteral(k)) for k in range(3))
+    out = []
+    for (p, q, r, z, ty) in ((a0, a1, a2, XI, INT), (v0, v1, v2, XF, FLT), (a0, v1, a2, XF, FLT)):
+        starts = [ir.Multiply(ir.Add(p, q), r), ir.Multiply(ir.Subtract(p, q), r)]
+        ends = [ir.Multiply(r, ir.Add(p, q)), ir.Multiply(q, ir.Subtract(r, p))]
+        if ty == INT:
+            starts.append(ir.BooleanToInteger(ir.Equal(p, q)))
+            ends += [ir.Max(p, q), ir.Min(q, r), ir.BooleanToInteger(ir.LessThan(p, r))]
+        for L in starts:
+            for R in ends:
+                for X in (ir.Add(L, R), ir.Subtract(L, R)):
+                    out += [(ir.Multiply(X, z), ty), (ir.Multiply(z, X), ty), (ir.Subtract(z, X), ty),
+                            (ir.Subtract(X, z), ty), (ir.Add(z, X), ty)]
+    # booleans: (x || y) && z printed from text
+    lb = ir.And(ir.Or(XB, ir.LessThan(XI, YI)), ir.BooleanLiteral(True))
+    for L in (ir.And(ir.Or(XB, ir.LessThan(XI, YI)), ir.Equal(XI, XI)), ir.Equal(ir.BooleanToInteger(XB), ir.IntegerLiteral(1))):
+        for R in (ir.And(ir.Equal(YI, YI), ir.Or(ir.GreaterThan(XI, YI), XB)), ir.Equal(ir.IntegerLiteral(0), ir.Max(XI, YI))):
+            out += [(ir.And(ir.Or(L, R), ir.GreaterThan(YI, XI)), BOOL), (ir.And(ir.GreaterThan(YI, XI), ir.Or(L, R)), BOOL)]
+    del lb
+    return out
+
+
 TRICKY_FLOATS = [0.1, 0.30000000000000004, 1 / 3, 1e-5, 1e22, 1.5e300, 5e-324, 2.2250738585072014e-308,
                  1.7976931348623157e308, 9007199254740992.0, 123456789.12345679, 12345678901234567.0, -0.0, -2.5]
 TRICKY_INTS = [2147483647, -2147483648, -1, 65536, 46341]
@@ -244,6 +272,38 @@ def core_statements():
     ]
 
 
+def else_if_chains():
+    """if / else-if chains and nested ifs whose arms repeat, with an outer test that guards an array read in the inner
+    one (the shape assemble kernels produce for their written flags): merging arms must keep the order of the tests."""
+    zero, one, two = ir.IntegerLiteral(0), ir.IntegerLiteral(1), ir.IntegerLiteral(2)
+    outside = ir.Or(ir.LessThan(XI, zero), ir.GreaterThan(XI, two))   # true exactly where a[xi] must not be read
+    inside = ir.And(ir.GreaterThanOrEqual(XI, zero), ir.LessThanOrEqual(XI, two))
+    guards = [outside, ir.GreaterThan(XI, two), XB, ir.Equal(XI, YI)]
+    reads = [ir.Equal(ir.ArrayIndex(A, XI), zero), ir.GreaterThan(ir.ArrayIndex(A, XI), one),
+             ir.LessThan(ir.ArrayIndex(A, XI), YI), ir.LessThan(YI, one)]
+    a1 = ir.ArrayIndex(A, one)
+    arms = [ir.Block([ir.Assignment(a1, ir.Add(a1, one))]), ir.Block([ir.Assignment(XB, ir.BooleanLiteral(True))]),
+            ir.Block([ir.Assignment(YI, ir.Add(YI, two))]), ir.Block([])]
+    out = []
+    for g in guards:
+        for t in reads:
+            for X in arms[:3]:
+                for Y in arms:
+                    if X == Y:
+                        continue
+                    out.append(ir.Branch(g, X, ir.Branch(t, X, Y)))          # if g X else-if t X else Y
+                    out.append(ir.Branch(g, Y, ir.Branch(t, X, Y)))          # if g Y else-if t X else Y
+                    out.append(ir.Branch(g, X, ir.Branch(t, Y, X)))
+                    out.append(ir.Branch(g, X, ir.Branch(t, X, ir.Branch(ir.LessThan(YI, zero), X, Y))))
+    for t in reads[:3]:
+        for X in arms[:2]:
+            for Y in arms[2:]:
+                out.append(ir.Branch(inside, ir.Branch(t, X, Y), Y))             # if g { if t X else Y } else Y
+                out.append(ir.Branch(inside, ir.Branch(t, X, Y), X))
+                out.append(ir.Branch(inside, ir.Block([ir.Branch(t, X, Y)]), Y))
+    return out
+
+
 def compound_statements(depth2=True):
     C = conditions()
     S = core_statements()
@@ -280,6 +340,7 @@ def compound_statements(depth2=True):
     out.append(ir.Loop(pos, empty))
     out.append(ir.Loop(XB, empty))
     out.append(ir.Loop(XB, ir.Block([ir.Assignment(XI, XI)])))
+    out += else_if_chains()
     if depth2:
         inner = [ir.Branch(c, t, f) for c in C[:6] for t in blocks_small[:5] for f in blocks_small[:3]]
         inner += [ir.Loop(pos, ir.Block([s, dec])) for s in S[:6]] + [ir.Loop(ir.BooleanLiteral(False), ir.Block([S[1]]))]
